@@ -360,13 +360,24 @@ def unit_policy(item):
 # ------------------------------------------------------------------------------------------- (d) initial solutions
 
 
+LINE5 = [(0.5, 0.0), (0.4, 0.0), (0.3, 0.0), (0.0, 0.0), (1.0, 0.0)]  # greedy from city 0 ends at one extreme; the last city left is the other extreme (distance = diameter)
+
+
 def unit_init(item):
-    _, kind, n, tier = item
+    _, kind, n, tier = item[:4]
+    variant = item[4] if len(item) > 4 else ""
     p = Partial()
-    env = make_env(kind, n)
+    if variant == "odd":
+        # an odd requested size is documented to be rounded up to the next even number of customers
+        env = PDPRuinRepairEnv(generator_params=dict(num_loc=n - 2))
+        if env.generator.num_loc + 1 != n:
+            p.note(f"pdp generator asked for {n - 2} customers works with {env.generator.num_loc} (expected {n - 1}); judged by C18")
+            n = env.generator.num_loc + 1
+    else:
+        env = make_env(kind, n)
     for init in ("random", "greedy"):
         env.generator.init_sol_type = init
-        locs = torch.tensor(PTS[:n], dtype=torch.float32)[None]
+        locs = torch.tensor(LINE5 if variant == "line" else PTS[:n], dtype=torch.float32)[None]
 
         def run(seam):
             with seam.active():
@@ -380,7 +391,7 @@ def unit_init(item):
             if order is None or (kind == "pdp" and not precedence_ok(order)):
                 p.violation(
                     dict(property=PID, env="tsp_kopt" if kind == "tsp" else "pdp_ruin_repair", config=f"init={init}", observable="tour_invalid" if order is None else "precedence", trigger="initial_solution"),
-                    dict(kind="init", env=kind, n=n, init=init, choices=ch),
+                    dict(kind="init", env=kind, n=n, init=init, choices=ch, variant=variant),
                     f"{kind}: initial solution generator ({init}) produced {rec}",
                 )
     p.sample(dict(part="initial_solutions", env=kind, n=n), cap=1)
@@ -473,6 +484,8 @@ def work_items(tier):
     items.append(("torchrl", "tsp", 5, [list(x) for x in PTS[:5]], tier))
     items.append(("torchrl", "pdp", 5, [list(x) for x in PTS[:5]], tier))
     items.append(("init", "tsp", 5, tier))
+    items.append(("init", "tsp", 5, tier, "line"))
+    items.append(("init", "pdp", 7, tier, "odd"))
     items.append(("init", "pdp", 5, tier))
     if not q:
         items.append(("init", "pdp", 7, tier))
@@ -498,9 +511,9 @@ def main(tier):
 
 def replay(rec):
     if rec.get("kind") == "init":
-        env = make_env(rec["env"], rec["n"])
+        env = make_env(rec["env"], rec["n"]) if rec.get("variant") != "odd" else PDPRuinRepairEnv(generator_params=dict(num_loc=rec["n"] - 2))
         env.generator.init_sol_type = rec["init"]
-        locs = torch.tensor(PTS[: rec["n"]], dtype=torch.float32)[None]
+        locs = torch.tensor(LINE5 if rec.get("variant") == "line" else PTS[: rec["n"]], dtype=torch.float32)[None]
         seam = Seam(rec["choices"])
         with seam.active():
             r = env.generator._get_initial_solutions(locs)[0].tolist()
